@@ -11,5 +11,7 @@ CONSTANTS
   Lease = 1
   MaxRec = 1
   Bug = {}
+CONSTRAINT LegitOnly
+VIEW McView
 INVARIANTS TypeOK ResumeOnlyKeyed AllBytesAfterReplyProtected NoKeyNoAcceptedByte NoKeyNoReadableByte DeadStaysDead ToldWhenAsked ResumedStateEqualsOriginal
 CHECK_DEADLOCK FALSE
